@@ -64,8 +64,25 @@ def setrat_cases(rng, count):
         yield dict(family="setrat-long", vars=[z], ops=["SetRat 0 %d %d" % (f.numerator, f.denominator), "MinPrec 0"])
 
 
+def reused_receiver_cases(rng, count):
+    for _ in range(count):
+        k = rng.choice([1, 1, 2, 3, 4])
+        top = 10 ** (19 * k)
+        v = rng.choice([top - rng.randint(1, top // 16), top - 1, 2 ** (63 * k) + rng.randint(0, 10 ** 6), top // 10, top // 10 - 1,
+                        rng.randrange(top // 10, top)])
+        v *= rng.choice([1, -1])
+        w = rng.randint(k + 1, k + 6)
+        old = fin(int("".join("%019d" % rng.randrange(B // 10, B) for _ in range(w))), rng.randint(-5, 5), neg=rng.randint(0, 1),
+                  mode=rng.randint(0, 5), prec=rng.choice([19 * w, 19 * w + 5]))
+        p = rng.choice([0, 19 * k, 19 * k + 1, 19 * k - 1, 34, 19 * w])
+        ops = (["SetPrec 0 %d" % p] if p else ["SetPrec 0 0"]) + [rng.choice(["SetInt 0 %d" % v, "SetRat 0 %d 1" % v, "SetRat 0 %d %d" % (Fraction(v, 7).numerator, Fraction(v, 7).denominator)]), "MinPrec 0"]
+        yield dict(family="setters-reused-receiver", vars=[old], ops=ops)
+
+
 def gen(rng, tier):
     n = 1 if tier == "quick" else 12
+    for c in reused_receiver_cases(rng, 150 * n):
+        yield c
     for c in setrat_cases(rng, 200 * n):
         yield c
     getters = ["Int64 0", "Uint64 0", "Int 0", "Rat 0", "IsInt 0", "MinPrec 0"]
